@@ -152,6 +152,9 @@ func c16Block(r *kit.Rng, st *kit.Stats) *wire.MsgBlock {
 	if r.Chance(1, 30) {
 		// around the 1-byte / 3-byte transaction-count boundary
 		n = []int{252, 253, 254, 300}[r.Intn(4)]
+		if r.Chance(1, 5) {
+			n = []int{1023, 1024, 1030}[r.Intn(3)]
+		}
 		st.Probe("block-with-3-byte-transaction-count")
 		for i := 0; i < n; i++ {
 			tx := wire.NewMsgTx(1)
